@@ -140,3 +140,9 @@ func VerifBM25Snapshot(ix *BM25SearchIndex) VerifBM25State {
 	}
 	return st
 }
+
+// VerifToInt64 exposes toInt64 (the numeric conversion applied to filter operands).
+func VerifToInt64(value interface{}) (int64, bool) {
+	v, err := toInt64(value)
+	return v, err == nil
+}
